@@ -34,10 +34,15 @@ def base_file(fmt, variant):
     args = []
     ctrl = []
     if fmt == "hrs":
-        w, h = {"small": (8, 3), "odd": (7, 6), "odd-wide": (319, 4), "one": (1, 5), "default": (320, 192)}[variant]
+        w, h = {"small": (8, 3), "odd": (7, 6), "odd-wide": (319, 4), "one": (1, 5), "default": (320, 192), "skip": (8, 3)}[variant]
         data = M.enc_hrs(M.rand_pixels(rng, w, h, "random"), pal, w, h)
         args = [] if variant == "default" else ["-w", str(w), "-r", str(h)]
         ctrl = list(range(16))
+        if variant == "skip":
+            # bytes in front of the picture that -s tells the decoder to pass over: a file that ends inside them is damaged too
+            data = bytes(rng.randrange(256) for _ in range(9)) + data
+            args += ["-s", "9"]
+            ctrl = list(range(9, 25))
     elif fmt == "pix":
         data = M.enc_pix(M.rand_pixels(rng, 6, 6, "random"), 6)
     elif fmt == "max":
@@ -57,6 +62,10 @@ def base_file(fmt, variant):
             data = M.enc_max(bits, cols, rows)
             args = ["-w", "16", "-i"]
             ctrl = [0, 1, 2, 3, 4]
+        elif variant == "skip":
+            data = bytes(rng.randrange(256) for _ in range(7)) + M.enc_max(bits, cols, rows)
+            args = ["-w", "16", "-s", "7"]
+            ctrl = [7, 8, 9, 10, 11]
         elif variant in ("rows", "rows-more", "rows-ignore"):
             # the height given on the command line (the file's own, more than the file holds, with header errors ignored)
             cols, rows = 16, 6
@@ -104,7 +113,7 @@ def base_file(fmt, variant):
 
 
 VARIANTS = {
-    "hrs": ["small", "odd", "odd-wide", "one", "default"], "pix": ["small"], "max": ["hdr5", "br2", "newsroom", "ignore", "odd-bytes", "rows", "rows-more", "rows-ignore"], "mge": ["rle", "raw", "cmp"],
+    "hrs": ["small", "odd", "odd-wide", "one", "default", "skip"], "pix": ["small"], "max": ["hdr5", "br2", "newsroom", "ignore", "odd-bytes", "rows", "rows-more", "rows-ignore", "skip"], "mge": ["rle", "raw", "cmp"],
     "rat": ["flat", "rows"], "cm3": ["one-coded", "one-raw", "two-coded-nopat", "two-raw"],
     "vef": ["t0s", "t0r", "t1s", "t1r", "t3s", "t3r"],
 }
